@@ -239,6 +239,66 @@ def run(ck):
     # ---- R20.6 the echo clause
     from rules import echo
     echo.run(ck, tu, model, end_value=dsum.get('end'))
+    # ---- R20.8 the tool defines functions the library defines too (its private decoder): inside the tool's process the
+    # library's calls are bound to the TOOL's definitions.  The verdict is the library's decision only if that is harmless.
+    r8 = ck.rule('R20.8', 'symbols defined by both the tool and the library (the tool\'s definition wins inside bin/eav): they are the decoder entry points only, both decoders agree on END / ERROR and on the language (R20.5, C03 O3.1), and - because the tool\'s versions ignore the state argument and keep one static cursor - every library caller uses exactly one decoder state per activation, passed by address and never copied, initialised before its first use', 3)
+    lib_us = [u for u in unitdb.units() if u.group != 'cli']
+    lib_tus = unitdb.load_asts(lib_us)
+    def extern_defs(t):
+        out = {}
+        for nm, f in t.functions.items():
+            if t.in_unit_file(f) and f.get('storageClass') != 'static': out[nm] = f
+        return out
+    tool_defs = {}
+    for k, t in tus.items():
+        for nm, f in extern_defs(t).items(): tool_defs[nm] = (k, f)
+    lib_defs = {}
+    for k, t in lib_tus.items():
+        for nm, f in extern_defs(t).items(): lib_defs.setdefault(nm, (k, f))
+    shared_syms = sorted(set(tool_defs) & set(lib_defs))
+    ck.sample({'symbols_defined_by_tool_and_library': shared_syms})
+    DEC = {'utf8_decode_init', 'utf8_decode_next', 'utf8_decode_at_byte', 'utf8_decode_at_character'}
+    other = [x for x in shared_syms if x not in DEC]
+    r8.instance('bin:interposed-symbols', ok=not other, wclass='interposition', what=f'the tool also defines {other}, which the library defines: the library\'s own calls are redirected to the tool\'s code')
+    if shared_syms:
+        # (a) same END / ERROR values
+        from rules import decoder as _dec
+        class _Quiet:
+            def rule(self, *a, **k):
+                class R:
+                    def instance(self, *a, **k): pass
+                return R()
+            def analysed(self, **k): pass
+            def sample(self, *a): pass
+            def mc(self, *a): pass
+        lsum = _dec.run(_Quiet(), lib_tus['src/utf8_decode.c'])
+        r8.instance('bin/utf8_decode.c~src/utf8_decode.c', ok=(lsum == dsum), wclass='decoder-values', what=f'the two decoders report END/ERROR as {dsum} (tool) and {lsum} (library)')
+        # (b) one state per activation in every library caller
+        for k, t in sorted(lib_tus.items()):
+            for fname, f in t.own_functions().items():
+                if fname in DEC and k == lib_defs.get(fname, (None,))[0]: continue          # the library's own definitions
+                calls = [(nm, c) for nm, c in astutil.calls_in(f) if nm in shared_syms]
+                if not calls: continue
+                ck.analysed(functions=[f'{k}:{fname}'])
+                why = []
+                states = set()
+                for nm, c in calls:
+                    args = c['inner'][1:]
+                    if not args: why.append(f'{nm} called without a state argument'); continue
+                    a = astutil.strip(args[-1])
+                    if a.get('kind') == 'UnaryOperator' and a.get('opcode') == '&' and astutil.strip(a['inner'][0]).get('kind') == 'DeclRefExpr':
+                        states.add(astutil.strip(a['inner'][0])['referencedDecl']['name'])
+                    else: why.append(f'{nm} at {where(c)}: the state argument is not the address of a local variable')
+                if len(states) > 1: why.append(f'uses {len(states)} decoder states ({sorted(states)}) in one activation: inside the tool they are one and the same static cursor')
+                decls = [d for d in astutil.find(f, 'VarDecl') if 'utf8_decode_t' in d.get('type', {}).get('qualType', '') and '*' not in d['type']['qualType']]
+                if len(decls) > 1: why.append(f'declares {len(decls)} decoder states ({[d["name"] for d in decls]})')
+                for d in decls:
+                    if [x for x in d.get('inner', []) if 'Comment' not in x.get('kind', '')]: why.append(f'decoder state {d["name"]} is initialised by copying another state ({where(d)})')
+                for n in astutil.walk(f):
+                    if n.get('kind') == 'BinaryOperator' and n.get('opcode') == '=' and 'utf8_decode_t' in n.get('type', {}).get('qualType', ''): why.append(f'a decoder state is assigned as a whole at {where(n)}')
+                order = [nm for nm, c in sorted(calls, key=lambda x: (astutil.line_of(x[1]) or 0))]
+                if order and order[0] != 'utf8_decode_init': why.append(f'first decoder call is {order[0]}, not utf8_decode_init (the static cursor still belongs to the tool\'s previous use)')
+                r8.instance(f'{k}:{fname}', ok=not why, wclass='decoder-state', what=f'{fname}: ' + '; '.join(sorted(set(why))))
     ck.undecided('stdio/getline behaviour; what sanitize_utf8 prints for lines that are NOT clean (escapes, truncation of ill-formed lines) beyond memory safety')
     ck.assume('getline returns a NUL-terminated buffer of `read` bytes; files are processed from the last argument to the first (the statement quantifies over single files)')
     ck.notes.append('bin/main.h also defines sanitize(), which has an unbounded static buffer but is not reachable from main (used by tests only): out of scope.')
